@@ -409,3 +409,137 @@ Proof.
   split; [|split; [exact TrRsetSbuf.RR_BOUND_Z|reflexivity]].
   apply Nat2Z.inj_le. rewrite TrRsetSbuf.RR_BOUND_Z. vm_compute. discriminate.
 Qed.
+
+(* ---- replace() and the per-line loop of ec_substitute (ex.c, translated: GenCFuncs.cf_replace / cf_ec_substitute,
+   whitelist tools/c2clite.d/99z_subst.list) are SubstDefs.expand and SubstDefs.subst_line, coq/TrSubst.v ----------------------
+   Everything above about `expand`, `one_match`, `scan`, `subst_line` speaks about the hand-written model; the two theorems
+   below tie that model to the C TEXT of ex.c.  The string buffer under both is the translated sbuf.c (coq/TrSbuf.v: malloc,
+   memcpy, free of CLite; every load, store and memcpy is checked against its block), uc_len is the translated uc.c
+   (coq/TrUcCode.v).  The matcher stays a parameter on both sides: the calls of rstr_find written in ex.c are calls to the
+   untranslated index X_rstr_find, answered by an oracle `ext` (CLiteExt.callx).
+
+   Vocabulary (TrSubst): cstr_in m b o s = block b holds from cell o on the bytes of s and the terminator (anything may
+   follow: the array xrep[EXLEN]);  sb_inv m p cs = block p is a live struct sbuf holding the cells cs with sbuf.c's capacity
+   rule (the byte the model sees is the cell modulo 256: TrSbuf.byte_of);  apart m p b = block b exists and is neither the
+   struct nor its data block;  pairs offl = the int array offs[] read as (so, eo) pairs;  refs rep = the group numbers the
+   replacement refers to;  refs_ptr_ok o n rep offs = for every such group the pointer ln + offs[2g] that replace() hands to
+   memcpy, and the end of the range, lie inside the block of the line (0 <= o + so, o + eo <= n + 1). *)
+From NV Require CLiteExt TrSbuf TrSubst.
+
+(* replace(dst, rep, ln, offs): for EVERY NUL-free replacement in memory (at any cell of any block), every line, every
+   offset o of ln into it, every 32 ints of offs and every buffer contents cs: when the model expands the replacement to t
+   (backslash-digit = the text of that group, nothing for an empty or unset one; backslash-other = that byte; a lone last
+   backslash and every other byte, & included, = itself), the call returns and dst holds cs followed by cells whose bytes are
+   t; only the buffer changed.  expand = Some t says that every group referred to has offs[2g+1] - offs[2g] >= 0 and lies,
+   when not empty, inside the rest of the line: the NEGATIVE length that the defect repaired by f74e779 handed to memcpy
+   makes the model answer None and is outside this theorem (C14_tr_replace_runs shows the translated replace ending in an
+   error on such a pair).  refs_ptr_ok is a condition for empty / unset groups only (for a group with text it follows from
+   expand = Some): ln + (-1) must still point into the line's block, i.e. ln is not the first byte of its allocation --
+   CLite's memcpy, like the C standard, wants a valid pointer even for length 0 (see design.d/C14.md). *)
+Theorem C14_tr_replace : forall m p cs br ro rep bl line o bo offl t d fuel,
+  TrSubst.sb_inv m p cs -> TrSubst.cstr_in m br ro rep -> nonul rep ->
+  CLiteProps.str_at m bl line -> CLiteProps.bytes_lt256 line -> (o <= length line)%nat -> (Z.of_nat (length line) < 2147483647)%Z ->
+  CLiteProps.int_arr_at m bo offl -> length offl = 32%nat -> CLiteProps.ints_ok offl ->
+  TrSubst.apart m p br -> TrSubst.apart m p bl -> TrSubst.apart m p bo ->
+  expand rep (skipn o line) (TrSubst.pairs offl) = Some t -> TrSubst.refs_ptr_ok o (length line) rep (TrSubst.pairs offl) ->
+  (Z.of_nat (length cs) + Z.of_nat (length t) <= 500000000)%Z -> (length rep < fuel)%nat ->
+  exists m' cells,
+    CLite.callf GenCFuncs.cprog fuel (S (S (S d))) GenCFuncs.F_replace
+      [CLite.VPtr p 0; CLite.VPtr br ro; CLite.VPtr bl (Z.of_nat o); CLite.VPtr bo 0] m = CLite.Ok (CLite.VUndef, m') /\
+    TrSubst.sb_inv m' p (cs ++ cells) /\ map TrSbuf.byte_of cells = t /\ TrSbuf.sbuf_step m m' p.
+Proof. exact TrSubst.tr_replace. Qed.
+Print Assumptions C14_tr_replace.
+
+(* the translated replace RUNS (vm_compute of the CLite interpreter: sbuf_make, replace, sbuf_buf on the memory
+   [rep; line; offs]; TrSubst.rp_run):  <\1&\2>  on "hello world" with offs = (0,11) (0,5) (6,11) and thirteen unset pairs
+   gives  <hello&world>  (& is an ordinary byte), the model says the same;  \3 (unset) expands to nothing when ln is at
+   offset 1 of the line and is the error EOob of the checked memcpy when ln is the first byte of the block (ln - 1);
+   the pair (5,3) -- a negative length, the case of f74e779 -- ends in an error and the model answers None *)
+Example C14_tr_replace_runs :
+  let line := [104;101;108;108;111;32;119;111;114;108;100;10] in
+  let offl := ([0; 11; 0; 5; 6; 11] ++ repeat (-1) 26)%Z in
+  TrSubst.rp_run [60;92;49;38;92;50;62] line 0 offl 100 = CLite.Ok [60;104;101;108;108;111;38;119;111;114;108;100;62] /\
+  expand [60;92;49;38;92;50;62] line (TrSubst.pairs offl) = Some [60;104;101;108;108;111;38;119;111;114;108;100;62] /\
+  TrSubst.rp_run [92;51] line 1 offl 100 = CLite.Ok [] /\ TrSubst.rp_run [92;51] line 0 offl 100 = CLite.Err CLite.EOob /\
+  (exists e, TrSubst.rp_run [92;49] line 0 ([0;11;5;3] ++ repeat (-1) 28)%Z 100 = CLite.Err e) /\
+  expand [92;49] line (TrSubst.pairs ([0;11;5;3] ++ repeat (-1) 28)%Z) = None.
+Proof.
+  cbv zeta. do 4 (split; [vm_compute; reflexivity|]). split; [eexists; vm_compute; reflexivity|vm_compute; reflexivity].
+Qed.
+
+(* THE LOOP of one line:  while (rstr_find(re, ln, 16, offs, r ? RE_NOTBOL : 0) >= 0) { if (!r) r = sbuf_make();
+   sbuf_mem(r, ln, offs[0]); replace(r, xrep, ln, offs); ln += offs[1]; if (offs[1] <= offs[0]) { l = MAX(1, uc_len(ln));
+   sbuf_mem(r, ln, l); ln += l; }  if (!*ln || *ln == '\n' || !strchr(s, 'g')) break; }  and then  sbuf_str(r, ln)
+   (TrSubst.es_while, es_str; TrSubst.es_shape: the body of ec_substitute's for loop IS these pieces).
+   m0 = ANY memory at the entry: the NUL-free line in block bl (at most 500 MB), the NUL-free replacement in the global
+   xrep, offs = a block of 32 cells with arbitrary contents, the cell of `s` pointing to the NUL-free flags text; the locals
+   the loop does not read are arbitrary.  For EVERY oracle ext and EVERY model matcher find such that the oracle's answer to
+   rstr_find(re, ln at offset o, 16, offs, RE_NOTBOL or 0) is find's answer on (the rest of the line from o, notbol) written
+   into offs (TrSubst.find_oracle), and the groups the replacement refers to point into the line's block
+   (TrSubst.find_ptr_ok, see above), with g = the byte g occurs in the flags text:
+     - the model leaves the line alone: the loop ends with r == NULL and ln at the start (the if (r) block is skipped);
+     - the model rewrites the line to `new` (<= 500 MB): after the loop and sbuf_str the buffer r, allocated after the entry,
+       holds cells whose bytes are exactly `new`
+   and (TrSubst.Ctx) memory only grew, every block of the entry other than offs is as it was.  The first search is made
+   with flags 0, every later one with RE_NOTBOL; the gap, the replacement and -- after an empty match, and only then --
+   MAX(1, uc_len) bytes are appended; without g the loop stops after one match.  The model's outcome SOOB (offsets outside
+   the rest, a character cut by the end of the line) is outside the statement. *)
+Theorem C14_tr_subst_line : forall ext find m0 bl bo bsp bs rb rz fo (line rep flags : bytes) d fuel a0 a1 a2 a3 a6 a7 a8 a9 a11,
+  CLiteProps.str_at m0 bl line -> nonul line -> (Z.of_nat (length line) <= 500000000)%Z ->
+  TrSubst.cstr_in m0 GenCFuncs.G_xrep 0 rep -> nonul rep ->
+  nth_error m0 bsp = Some [CLite.VPtr bs fo] -> TrSubst.cstr_in m0 bs fo flags -> nonul flags ->
+  (bo < length m0)%nat -> (exists blk0, nth_error m0 bo = Some blk0 /\ length blk0 = 32%nat) ->
+  bl <> bo /\ GenCFuncs.G_xrep <> bo /\ bsp <> bo /\ bs <> bo ->
+  TrSubst.find_oracle ext find bl bo rb rz line -> TrSubst.find_ptr_ok find line rep ->
+  forall lv, (S (length line) <= fuel)%nat -> (length rep < fuel)%nat ->
+  let st o r l m := CLite.mkst [a0; a1; a2; a3; CLite.VPtr rb rz; CLite.VPtr bo 0; a6; a7; a8; a9; CLite.VPtr bsp 0; a11;
+                                CLite.VPtr bl (Z.of_nat o); r; l] m in
+  match subst_line find rep (has_g flags) line with
+  | Unchanged =>
+      exists lv' mk', CLite.exec (CLiteExt.callx ext GenCFuncs.cprog fuel (S (S (S d)))) fuel TrSubst.es_while (st 0%nat (CLite.VInt 0) lv m0)
+                      = CLite.ONormal (st 0%nat (CLite.VInt 0) lv' mk') /\ TrSubst.Ctx m0 bo mk'
+  | Changed new =>
+      (Z.of_nat (length new) <= 500000000)%Z ->
+      exists o' p lv' mk' cells,
+        CLite.exec (CLiteExt.callx ext GenCFuncs.cprog fuel (S (S (S d)))) fuel (CLite.SSeq TrSubst.es_while TrSubst.es_str) (st 0%nat (CLite.VInt 0) lv m0)
+        = CLite.ONormal (st o' (CLite.VPtr p 0) lv' mk') /\ TrSubst.Ctx m0 bo mk' /\
+        TrSubst.Rinv m0 mk' p cells /\ map TrSbuf.byte_of cells = new
+  | SOOB | SFuel => True
+  end.
+Proof. exact TrSubst.subst_line_ok. Qed.
+Print Assumptions C14_tr_subst_line.
+
+(* the pieces ARE the C text: the body of the for loop of the translated ec_substitute *)
+Theorem C14_tr_loop_is_c_text : TrSubst.es_line =
+  CLite.SSeq (CLite.SExpr (CLite.ESetLocal 12 (CLite.ECall GenCFuncs.F_lbuf_get [CLite.ECall GenCFuncs.F_ex_lbuf []; CLite.ELocal 11])))
+    (CLite.SSeq (CLite.SExpr (CLite.ESetLocal 13 (CLite.EConst 0)))
+       (CLite.SSeq TrSubst.es_while
+          (CLite.SIf (CLite.ELocal 13)
+             (CLite.SSeq TrSubst.es_str (CLite.SSeq TrSubst.es_edit (CLite.SExpr (CLite.ECall GenCFuncs.F_sbuf_free [CLite.ELocal 13])))) CLite.SSkip))).
+Proof. exact TrSubst.es_shape. Qed.
+Print Assumptions C14_tr_loop_is_c_text.
+
+(* the oracle hypothesis is satisfiable for every matcher that answers with sixteen pairs of ints: TrSubst.ext_find find decodes
+   the rest of the line from the memory, asks find and writes the pairs into offs *)
+Theorem C14_tr_oracle_exists : forall find bl bo rb rz line, nonul line -> TrSubst.find_wf16 find ->
+  TrSubst.find_oracle (TrSubst.ext_find find) find bl bo rb rz line.
+Proof. exact TrSubst.ext_find_oracle. Qed.
+Print Assumptions C14_tr_oracle_exists.
+
+(* the translated loop RUNS under such an oracle (TrSubst.sl_run: the program's globals with xrep := the replacement, the
+   line, offs[32] indeterminate, the flags; loop, sbuf_str, sbuf_buf) and agrees with the model:  s/a/[\0]/g  and  s/a/[\0]/
+   on "baa",  s/a/X/g on "bc" (r stays NULL),  an empty match in front of every 0xC3 with g on "x" e-acute e-acute "y" (the
+   two-byte characters are stepped over whole: seeded/C14a steps one byte) *)
+Example C14_tr_subst_line_runs :
+  TrSubst.sl_run (TrSubst.find_byte1 97) [91;92;48;93] [103] [98;97;97;10] 100 = CLite.Ok (Some [98;91;97;93;91;97;93;10]) /\
+  subst_line (TrSubst.find_byte1 97) [91;92;48;93] (has_g [103]) [98;97;97;10] = Changed [98;91;97;93;91;97;93;10] /\
+  TrSubst.sl_run (TrSubst.find_byte1 97) [91;92;48;93] [] [98;97;97;10] 100 = CLite.Ok (Some [98;91;97;93;97;10]) /\
+  subst_line (TrSubst.find_byte1 97) [91;92;48;93] (has_g []) [98;97;97;10] = Changed [98;91;97;93;97;10] /\
+  TrSubst.sl_run (TrSubst.find_byte1 97) [88] [103] [98;99;10] 100 = CLite.Ok None /\
+  subst_line (TrSubst.find_byte1 97) [88] (has_g [103]) [98;99;10] = Unchanged /\
+  TrSubst.sl_run (TrSubst.find_before 195) [45] [103] [120;195;169;195;169;121;10] 100 = CLite.Ok (Some [120;45;195;169;45;195;169;121;10]) /\
+  subst_line (TrSubst.find_before 195) [45] (has_g [103]) [120;195;169;195;169;121;10] = Changed [120;45;195;169;45;195;169;121;10] /\
+  TrSubst.find_wf16 (TrSubst.find_byte1 97).
+Proof.
+  do 8 (split; [vm_compute; reflexivity|]). exact (TrSubst.find_byte1_wf16 97).
+Qed.
